@@ -28,7 +28,8 @@ def main(argv):
     # duplicate and wrongly signed votes; model and implementation are compared step by step and the c05 monitor judges
     # the views and the round store the real mirror ends up with
     cases, _crashes, results = mirrorlib.mirror_check(c, "C05", ["c05"], "C05 authenticity with the local validator's own votes",
-                                                      quick=(15, 45), thorough=(200, 50), extra=["-consumers"], prove=False)
+                                                      quick=(20, 45), thorough=(200, 50), extra=["-consumers", "-crashes"], prove=False,
+                                                      templates=[7])   # 7 = a round with the local validator's own proposal and votes
     # known finding local-ph-unchecked, re-observed on every run: the harness hands the real mirror, as the state machine's
     # own proposal, a header whose block hash is wrong (witness of C05Act_local_ph_keeps_chain_invariant_refuted); the model
     # files it unchecked, and where model and real mirror agree on that step's observation the real kernel filed it too
